@@ -692,6 +692,8 @@ func numSetEmptySpec(numSet imap.NumSet) bool {
 //@   callsite Conn.writeContReq requires authed(c)
 //@   callsite Reader.ReadLine requires false
 //@   ensures c.state == old(c.state) && __ghost("tagged") == old(__ghost("tagged"))
+//@   props C06:post
+//@   ensures[C06] __called("Conn.readLine") ==> __called("recv:done")
 
 // ---------------------------------------------------------------------------
 // C17: the STARTTLS switch. Ordering is stated as call-site preconditions over
